@@ -12,6 +12,20 @@ use crate::helpers::all_zero_intvector;
 
 const MAX_NUM_KICKS: usize = 500; // mentioned in paper
 
+#[cfg(feature = "verif")]
+thread_local! {
+    static VERIF_KICK_BUDGET: std::cell::Cell<Option<usize>> = const { std::cell::Cell::new(None) };
+    static VERIF_KICKS_LEFT: std::cell::Cell<usize> = const { std::cell::Cell::new(0) };
+}
+
+/// Verification hook: limit the number of kicks a single insertion may perform on this thread.
+///
+/// `None` (the default) keeps the built-in limit. The limit can only shorten the relocation loop.
+#[cfg(feature = "verif")]
+pub fn verif_kick_budget(budget: Option<usize>) {
+    VERIF_KICK_BUDGET.with(|b| b.set(budget));
+}
+
 /// Error struct used to signal that a `CuckooFilter` is full, i.e. that a value cannot be inserted
 /// because the implementation was unable to find a free bucket.
 #[derive(Debug, Clone, Copy)]
@@ -354,6 +368,20 @@ where
         self.l_fingerprint
     }
 
+    /// Verification hook: content of the `n_buckets * bucketsize` table slots (0 = free).
+    #[cfg(feature = "verif")]
+    pub fn verif_table(&self) -> Vec<u64> {
+        (0..(self.n_buckets * self.bucketsize))
+            .map(|x| self.table.get(x as u64))
+            .collect()
+    }
+
+    /// Verification hook: number of slots the table has actually allocated.
+    #[cfg(feature = "verif")]
+    pub fn verif_table_len(&self) -> u64 {
+        self.table.len()
+    }
+
     /// Remove element from the filter.
     ///
     /// Returns `true` if element was in the filter, `false` if it was not in which case the operation did not modify
@@ -442,6 +470,9 @@ where
         i2: usize,
         log: &mut Vec<(usize, u64)>,
     ) -> Result<bool, CuckooFilterFull> {
+        #[cfg(feature = "verif")]
+        VERIF_KICKS_LEFT.with(|l| l.set(VERIF_KICK_BUDGET.with(|b| b.get()).unwrap_or(usize::MAX)));
+
         if self.write_to_bucket(i1, f) {
             self.n_elements += 1;
             return Ok(true);
@@ -455,6 +486,15 @@ where
         let mut i = if self.rng.gen::<bool>() { i1 } else { i2 };
 
         for _ in 0..MAX_NUM_KICKS {
+            #[cfg(feature = "verif")]
+            {
+                let left = VERIF_KICKS_LEFT.with(|l| l.get());
+                if left == 0 {
+                    break;
+                }
+                VERIF_KICKS_LEFT.with(|l| l.set(left - 1));
+            }
+
             let e: usize = self.rng.gen_range(0..self.bucketsize);
             let offset = i * self.bucketsize;
             let x = offset + e;
